@@ -322,5 +322,12 @@ func genC03(g *gen) {
 	coin := func() bool { return g.r.Intn(2) == 0 }
 	c03GenSendCases(g, g.pick(90, 2400), coin, 6)
 	c03GenPipeCases(g, g.pick(90, 2400), coin, false)
+	// long streams, one command per batch, with the metric (delay sampling of addSendId) switched on and a delay channel of
+	// two slots that nobody drains: thousands of send ids pass the sampling points
+	for i, nl := 0, g.pick(2, 8); i < nl; i++ {
+		pc := c0304PipeCfgs[0]
+		cmds := c03GenStream(g, c03StreamOpt{n: 3300 + g.r.Intn(500), dbs: pc.dbs, keyFilter: pc.keyF, endMarker: fmt.Sprintf("__endlong__%d", i), endDb: pc.endDb, avoidFirst: -1})
+		g.emit("pipe %s %s 0 0 %s %s", pc.pcfg, c03ScfgStr(g, fmt.Sprintf("cnt=%d,size=65535,met=1,dcap=2", 1+i%2), i%2 == 1), c03FmtCmds(cmds), strings.Repeat("0", len(cmds)))
+	}
 	c03GenParseCases(g, g.pick(2000, 50000))
 }
